@@ -1364,17 +1364,22 @@ class OrdEval:
     FLOAT = {"olt": lambda a, b: a < b, "ole": lambda a, b: a <= b, "ogt": lambda a, b: a > b, "oge": lambda a, b: a >= b,
              "oeq": lambda a, b: a == b, "one": lambda a, b: a != b,
              "ult": lambda a, b: a < b, "ule": lambda a, b: a <= b, "ugt": lambda a, b: a > b, "uge": lambda a, b: a >= b,
-             "ueq": lambda a, b: a == b, "une": lambda a, b: a != b}
+             "ueq": lambda a, b: a == b, "une": lambda a, b: a != b,
+             # NaN is outside every property that uses this domain: ordered is true, unordered is false
+             "ord": lambda a, b: True, "uno": lambda a, b: False}
     EQ = {"eq": lambda a, b: a == b, "ne": lambda a, b: a != b}
 
-    def __init__(self, rank, kind):
+    def __init__(self, rank, kind, inf=None):
         self.rank = rank       # atom term -> rank
         self.kind = kind       # 'signed' | 'unsigned' | 'float'
+        self.inf = inf or {}   # atom term -> +1 / -1: atoms assumed to BE +inf / -inf in this evaluation (float kind)
         self.preds_seen = set()
         self.bad_pred = []
 
     def rank_of(self, a):
         """rank of an atom, or of a constant that is an extreme of the coordinate type (extremes are just orderings)"""
+        if a in self.inf:
+            return 10 ** 6 * self.inf[a]
         if a in self.rank:
             return self.rank[a]
         if a[0] == 'ci':
@@ -1477,9 +1482,27 @@ class OrdEval:
             if c is None:
                 return None
             return self.cond(t[2] if c else t[3])
+        if h == 'cmp' and self.kind == 'float' and any(x[0] == 'fn' and x[1] == 'llvm.fabs' for x in (t[2], t[3])):
+            # |x| against an infinite constant (isfinite / isinf): |x| is +inf iff x is assumed infinite, otherwise it is
+            # some finite value, which only an infinite constant can be compared with
+            def mag(x):
+                if x[0] == 'fn' and x[1] == 'llvm.fabs':
+                    v = self.value(x[3])
+                    if v is None or v not in self.rank:
+                        return None
+                    return 10 ** 6 if v in self.inf else 5 * 10 ** 5
+                if x[0] == 'cf' and ((isinstance(x[1], float) and x[1] in (float('inf'), float('-inf'))) or (isinstance(x[1], str) and 'inf' in x[1].lower())):
+                    return self.rank_of(x)
+                return None
+            ra, rb = mag(t[2]), mag(t[3])
+            if ra is None or rb is None or t[1] not in self.FLOAT:
+                return None
+            self.preds_seen.add(t[1])
+            return self.FLOAT[t[1]](ra, rb)
         if h == 'cmp':
             a, b = self.value(t[2]), self.value(t[3])
-            if a is None or b is None or self.rank_of(a) is None or self.rank_of(b) is None:
+            inf_vs_const = self.kind == 'float' and a is not None and b is not None and ((a in self.inf and b[0] == 'cf') or (b in self.inf and a[0] == 'cf'))
+            if (a is None or b is None or self.rank_of(a) is None or self.rank_of(b) is None) and not inf_vs_const:
                 # arithmetic on truth values (branch-free code: the 0/1 results of the comparisons are added, or-ed, ... and the
                 # sum is tested): exact small-integer evaluation
                 x, y = self.num(t[2]), self.num(t[3])
@@ -1494,6 +1517,13 @@ class OrdEval:
                        'sgt': lambda: sg(x) > sg(y), 'sge': lambda: sg(x) >= sg(y)}
                 return ops[p]() if p in ops else None
             ra, rb = self.rank_of(a), self.rank_of(b)
+            if self.kind == 'float' and (ra is None) != (rb is None):
+                # an atom assumed infinite against a finite constant is decided (the sign test of an isinf branch)
+                fin = lambda x: x[0] == 'cf' and isinstance(x[1], float) and abs(x[1]) < 3.4e38
+                if ra is None and fin(a) and b in self.inf:
+                    ra = 0
+                elif rb is None and fin(b) and a in self.inf:
+                    rb = 0
             if ra is None or rb is None:
                 return None
             p = t[1]
